@@ -141,10 +141,13 @@ class TaskSem(Semantics):
         self.events = []
         self.log_sites = {}
         self.log_list = []
+        self.log_stmt = {}
         self._find_log_sites()
 
     def _find_log_sites(self):
-        """`with open(<path ending .stdout/.stderr>, <mode>) as h: h.write(<buf>)` sites and the communicate() unpacking."""
+        """Log writes of the coroutine, found by template-evaluating either the inline `with open(...)` statements or a
+        synchronous helper method they were extracted into.  log_list: [{suffix, buffer, mode, path, stmt}]."""
+        from ..symeval import Obj, PureInterp, Raised, Unsupported, tok
         self.comm_vars = None
         for n in walk_no_nested(self.finfo.node):
             if isinstance(n, ast.Assign) and len(n.targets) == 1 and isinstance(n.targets[0], ast.Tuple):
@@ -152,33 +155,57 @@ class TaskSem(Semantics):
                     names = [e.id if isinstance(e, ast.Name) else None for e in n.targets[0].elts]
                     if len(names) == 2:
                         self.comm_vars = names
-            if isinstance(n, (ast.With, ast.AsyncWith)):
-                for item in n.items:
-                    ce = item.context_expr
-                    if not (isinstance(ce, ast.Call) and isinstance(item.optional_vars, ast.Name)):
-                        continue
-                    canon = self.index.canon(ce.func, self.module)
-                    is_open = canon == "builtins.open" or (isinstance(ce.func, ast.Attribute) and ce.func.attr == "open")
-                    if not is_open:
-                        continue
-                    text = ast.unparse(ce)
-                    suffix = ".stdout" if ".stdout" in text else ".stderr" if ".stderr" in text else None
-                    if suffix is None:
-                        continue
-                    mode = None
-                    margs = ce.args[1:] if canon == "builtins.open" else ce.args
-                    if margs and isinstance(margs[0], ast.Constant):
-                        mode = margs[0].value
-                    for kw in ce.keywords:
-                        if kw.arg == "mode" and isinstance(kw.value, ast.Constant):
-                            mode = kw.value.value
-                    for st in n.body:
-                        for c in _calls(st):
-                            if isinstance(c.func, ast.Attribute) and c.func.attr == "write" and dotted(c.func.value) == item.optional_vars.id:
-                                buf = ast.unparse(c.args[0]) if c.args else None
-                                site = {"suffix": suffix, "buffer": buf, "mode": mode, "open": ce, "write": c, "with": n}
-                                self.log_sites[id(c)] = site
-                                self.log_list.append(site)
+        self.log_stmt = {}  # id(node handed to effect()) -> [site]
+        cv = self.comm_vars or ["stdout", "stderr"]
+        PROJ, NAME = tok("PROJ"), tok("NAME")
+
+        def interpret(stmts):
+            events = []
+
+            def h_open(path, mode="r", *a, **k):
+                return Obj("file", path=str(path), mode=k.get("mode", mode))
+
+            def h_write(recv, buf, *a):
+                if isinstance(recv, Obj) and "path" in recv.__dict__["_attrs"]:
+                    events.append({"path": recv.path, "mode": recv.mode, "buffer": buf})
+                return None
+
+            def h_joinpath(recv, *parts):
+                return "/".join([str(recv)] + [str(x) for x in parts])
+
+            hooks = {"builtins.open": h_open, "attr:write": h_write, "attr:joinpath": h_joinpath,
+                     "attr:open": lambda recv, mode="r", *a, **k: Obj("file", path=str(recv), mode=k.get("mode", mode))}
+            it = PureInterp(self.ctx, hooks=hooks)
+            env = {"self": Obj("sched", working_dir=PROJ, **{"__class__": self.info["cls"]}), self.p_name: NAME,
+                   cv[0]: tok("STDOUT"), cv[1]: tok("STDERR"), self.p_wd: tok("WD"), self.p_tid: tok("TID")}
+            try:
+                it.block(stmts, env, self.module, 0)
+            except (Raised, Unsupported, Exception):
+                return []
+            return events
+
+        for n in walk_no_nested(self.finfo.node):
+            key = None
+            stmts = None
+            if isinstance(n, (ast.With, ast.AsyncWith)) and any(isinstance(i.context_expr, ast.Call) and "open" in ast.unparse(i.context_expr.func) for i in n.items):
+                key, stmts = id(n.items[0]), [n]
+            elif isinstance(n, ast.Expr) and isinstance(n.value, ast.Call) and isinstance(n.value.func, ast.Attribute) and dotted(n.value.func.value) == "self":
+                m = self.index.method(self.info["cls"], n.value.func.attr)
+                if m is not None and not m.is_async and any("open" in ast.unparse(c.func) for c in _calls(m.node)):
+                    key, stmts = id(n), [n]
+            if key is None:
+                continue
+            sites = []
+            for ev in interpret(stmts):
+                suffix = ".stdout" if ev["path"].endswith(".stdout") else ".stderr" if ev["path"].endswith(".stderr") else None
+                if suffix is None:
+                    continue
+                buf = {tok("STDOUT"): cv[0], tok("STDERR"): cv[1]}.get(ev["buffer"], str(ev["buffer"]))
+                site = {"suffix": suffix, "buffer": buf, "mode": ev["mode"], "path": ev["path"], "stmt": n}
+                sites.append(site)
+                self.log_list.append(site)
+            if sites:
+                self.log_stmt[key] = sites
 
     # ---- recognisers
     def _benign_rebind(self, value):
@@ -253,9 +280,30 @@ class TaskSem(Semantics):
 
     def _deps_task_set(self, expr):
         """'all' if expr is {self.tasks[d] for d in deps}; 'filtered' if filtered by not-done; None otherwise."""
-        if isinstance(expr, ast.Call) and len(expr.args) == 1 and self.index.canon(expr.func, self.module) in (
+        r = self._deps_task_set_syntactic(expr)
+        if r is None and isinstance(expr, ast.Call) and self.deps_rebound is None:
+            r = self._deps_task_set_evaluated(expr)
+        return r
+
+    def _deps_task_set_evaluated(self, expr):
+        """Fallback: template-evaluate a pure helper/expression with three symbolic dependency ids."""
+        from ..symeval import Obj, PureInterp, Raised, Unsupported, tok
+        ids = [tok("D1"), tok("D2"), tok("D3")]
+        tasks = {i: tok("T" + i[2]) for i in ids}
+        env = {"self": Obj("sched", **{self.info["tasks"]: tasks, self.info["states"]: {}, "__class__": self.info["cls"]}), self.p_deps: list(ids)}
+        try:
+            val = PureInterp(self.ctx).eval(expr, env, self.module)
+        except (Raised, Unsupported, Exception):
+            return None
+        try:
+            return "all" if set(val) == set(tasks.values()) else None
+        except TypeError:
+            return None
+
+    def _deps_task_set_syntactic(self, expr):
+        if isinstance(expr, ast.Call) and len(expr.args) == 1 and isinstance(expr.func, (ast.Name, ast.Attribute)) and self.index.canon(expr.func, self.module) in (
                 "builtins.set", "builtins.list", "builtins.tuple", "builtins.frozenset"):
-            return self._deps_task_set(expr.args[0])
+            return self._deps_task_set_syntactic(expr.args[0])
         if isinstance(expr, (ast.SetComp, ast.ListComp, ast.GeneratorExp)) and len(expr.generators) == 1:
             g = expr.generators[0]
             if not (isinstance(g.target, ast.Name) and self._is_all_deps(g.iter)):
@@ -322,6 +370,7 @@ class TaskSem(Semantics):
             return None
         if target_text == self.own_state or target_text.startswith(f"self.{self.info['states']}["):
             vt = ast.unparse(value_expr)
+            vt = self.alias_of.get(vt, vt)
             c = self.const(value_expr, state)
             if c is None:
                 d = self.domain(vt)
@@ -339,6 +388,8 @@ class TaskSem(Semantics):
         has_await = any(isinstance(n, ast.Await) for n in ast.walk(node)) if isinstance(node, ast.AST) else False
         if has_await and (self.cancel_in_handlers or not in_handler):
             out.append(CANCEL)
+        if isinstance(node, ast.AST) and id(node) in self.log_stmt and not in_handler:
+            out.append("builtins.PermissionError")
         if isinstance(node, ast.AST):
             for c in _calls(node):
                 canon = self.index.canon(c.func, self.module) or ""
@@ -368,14 +419,13 @@ class TaskSem(Semantics):
         if isinstance(node, ast.Raise) and node.exc is not None and "cause" not in s.facts:
             e = node.exc.func if isinstance(node.exc, ast.Call) else node.exc
             s = s.with_fact("cause", self.index.canon(e, self.module) or ast.unparse(e))
-            if self.log_sites:
+            if self.log_list:
                 s = s.with_fact("logs_at_raise", tuple(sorted(k[4:] for k, v in s.facts.items() if k.startswith("log:") and v)))
-        # log writes: <handle>.write(<buffer>) inside `with open(<...suffix>) as <handle>`
-        if isinstance(node, ast.AST):
-            for c in _calls(node):
-                site = self.log_sites.get(id(c))
-                if site is not None:
-                    s = s.with_fact("log:" + site["suffix"], site["buffer"] or "?").note(node, f"log {site['suffix']} written from {site['buffer']}")
+        # log writes (inline with-block entry or helper call statement)
+        sites = self.log_stmt.get(id(node))
+        if sites:
+            for site in sites:
+                s = s.with_fact("log:" + site["suffix"], site["buffer"] or "?").note(site["stmt"], f"log {site['suffix']} written from {site['buffer']}")
         # semaphore
         if self._sem_call(node, "acquire") is not None:
             if s.facts.get("acq"):
@@ -484,7 +534,8 @@ def explore_task(ctx, cancel_in_handlers=False):
     key = ("task_paths", cancel_in_handlers)
     if key in ctx.shared:
         return ctx.shared[key]
-    fi = ctx.index.func(f"{LOCAL}:Scheduler.try_handle_task")
+    from ..inline import inlined
+    fi = inlined(ctx, ctx.index.func(f"{LOCAL}:Scheduler.try_handle_task"), keep={"_gentle_kill", "_signal_process_group"})
     sem = TaskSem(ctx, fi, cancel_in_handlers)
     init = State(vars={sem.own_state: frozenset(["SUBMITTED"])}, facts={"acq": 0})
     ex = Explorer(sem)
